@@ -10,7 +10,7 @@
    bool(QueryHandler.search(..)), [compile fx limit q] models QueryHandler(q),
    [search] their composition.  Theorems quantified over [fx] hold of both. *)
 From Coq Require Import List NArith Bool Permutation.
-From HV Require Import Base.Res Base.Str Model.Query Model.QueryParse
+From HV Require Import Base.Res Base.Str Model.Query Model.QueryParse Model.QueryEdit Proofs.QueryEditProofs
   Proofs.QueryProofs Proofs.QueryParseProofs Proofs.QueryBalanceProofs Proofs.QuerySiblingProofs
   Proofs.QueryWitness.
 Import ListNotations.
@@ -156,3 +156,52 @@ Example C15_repaired_witnesses :
   (compile true 2 [ch_open; ch_open; ch_open; 97%N; ch_close; ch_close; ch_close] = Exn ValueError /\
    exists e, compile true 4 [ch_open; ch_open; ch_open; 97%N; ch_close; ch_close; ch_close] = Ok e).
 Proof. exact (conj sibling_witness_fixed depth_exceeded_valueerror). Qed.
+
+(* Annotations built or edited through the API.  The object keeps the source
+   text it was parsed from; edits (append, replace) change the content only.
+   Whatever the source text and whatever the history of edits and of earlier
+   searches, the answer is the answer on the current content.  (This holds by
+   construction of the model -- its finders read the children only; that the
+   implementation does the same is what the harness tests on objects built by
+   expand_defs, replace_placeholder, append/replace/remove, _contents, copies,
+   sorted copies and from_hed_strings.) *)
+Theorem C15_search_ignores_history : forall fx limit q h o,
+  obj_search fx limit q (fold_left (run_step fx limit) h o) =
+  search fx limit q (fold_left apply_edit (edits_of h) (o_root o)).
+Proof. exact search_history_irrelevant. Qed.
+Print Assumptions C15_search_ignores_history.
+
+Theorem C15_search_same_content : forall fx limit q o1 o2,
+  o_root o1 = o_root o2 -> obj_search fx limit q o1 = obj_search fx limit q o2.
+Proof. exact search_same_content. Qed.
+Print Assumptions C15_search_same_content.
+
+(* A member (tag or group) appended to any group of the annotation is visible
+   to a search term in each of the three modes; nothing else changes for terms. *)
+Theorem C15_appended_member_visible : forall fx tok mode text p x i ch,
+  term_info tok = (mode, false, text) -> path_ok p (Group i ch) = true ->
+  matches fx (ETerm tok) (append_at p x (Group i ch)) =
+  matches fx (ETerm tok) (Group i ch) || existsb (tag_matches mode text) (map fst (tags_ctx [] x)).
+Proof. exact append_visible. Qed.
+Print Assumptions C15_appended_member_visible.
+
+Example C15_append_example :
+  path_ok [1] w_ann1 = true /\
+  search true 100 [34; 71; 114; 101; 101; 110; 34]%N w_ann1 = Ok false /\ search true 100 [34; 71; 114; 101; 101; 110; 34]%N (append_at [1] w_green w_ann1) = Ok true /\
+  search true 100 [71; 114; 101; 42]%N w_ann1 = Ok false /\ search true 100 [71; 114; 101; 42]%N (append_at [1] w_green w_ann1) = Ok true.
+Proof. exact append_example. Qed.
+
+(* A tag whose base was changed through the API (expand_defs / shrink_defs turn
+   Def into Def-expand and back): with fix-F4 the bare-term mode tests the
+   schema path of the new entry. *)
+Theorem C15_rebased_tag_terms : forall text new_terms new_short i terms s o,
+  tag_matches 0 text (rebase_tag true new_terms new_short (Tag i terms s o)) = true <-> In (fold text) new_terms.
+Proof. exact rebase_terms_fixed. Qed.
+Print Assumptions C15_rebased_tag_terms.
+
+(* record of the defect (finding C15-F4): without fix-F4 the stale path is tested *)
+Theorem C15_rebased_tag_terms_prefix_refuted :
+  exists text new_terms new_short t,
+    tag_matches 0 text (rebase_tag false new_terms new_short t) = true /\ ~ In (fold text) new_terms.
+Proof. exact rebase_terms_refuted. Qed.
+Print Assumptions C15_rebased_tag_terms_prefix_refuted.
